@@ -146,8 +146,14 @@ def build(case):
     return "\n".join(lines), used
 
 
-def run_one(text, raw_on, file_on, suppress=()):
+def run_one(text, raw_on, file_on, suppress=(), spell="bool"):
     from docutils import nodes
+
+    # docutils reads both switches by truth value (its defaults are the ints 1): 0 / 1 are as good as False / True
+    if spell == "int":
+        raw_on, file_on = int(raw_on), int(file_on)
+    elif spell == "none-off":
+        raw_on, file_on = (raw_on or None), (file_on or None)
 
     src = os.path.join(TMP, "doc.md")
     kw = dict(myst_enable_extensions=EXT, myst_substitutions={"rawsub": "<x-sentinel-777 a=\"1\">", "rawsub_inline": "<x-sentinel-778 a=\"1\">"}, raw_enabled=raw_on, file_insertion_enabled=file_on, doctitle_xform=False, myst_suppress_warnings=list(suppress))
@@ -171,7 +177,7 @@ def eval_case(ctx, case):
     for raw_on in (True, False):
         for file_on in (True, False):
             try:
-                res[(raw_on, file_on)] = run_one(text, raw_on, file_on, case.get("suppress", ()))
+                res[(raw_on, file_on)] = run_one(text, raw_on, file_on, case.get("suppress", ()), case.get("spell", "bool"))
             except Exception as e:  # noqa: BLE001
                 sig = core.exc_signature(e)
                 ctx.violation(f"raises:{sig['type']}:{sig['myst'] or sig['inner']}", f"raw_enabled={raw_on} file_insertion_enabled={file_on}: rendering raised {sig['type']}: {sig['msg']}", case, {"text": text, **sig})
@@ -264,7 +270,7 @@ def run_shard(ctx):
                 continue
         if i % ctx.nshards == ctx.shard % len(names):
             for cont in ("top", "quote", "list"):
-                case = {"kind": "single", "items": [[nm, cont]]}
+                case = {"kind": "single", "items": [[nm, cont]], "spell": ("bool", "int", "none-off")[n % 3]}
                 eval_case(ctx, case)
                 ctx.case(repr(case), True)
                 n += 1
@@ -272,7 +278,7 @@ def run_shard(ctx):
     nr = 130 if quick else 6000
     for i in range(nr):
         items = [[R.choice(names), R.choice(["top", "top", "quote", "list"])] for _ in range(R.randint(2, 8))]
-        case = {"kind": "combo", "items": items, "suppress": R.choice([[], [], ["myst"], ["myst.*"], ["myst.strikethrough", "docutils"], ["myst", "ref", "docutils.*"]])}
+        case = {"kind": "combo", "items": items, "suppress": R.choice([[], [], ["myst"], ["myst.*"], ["myst.strikethrough", "docutils"], ["myst", "ref", "docutils.*"]]), "spell": R.choice(["bool", "bool", "int", "none-off"])}
         nt = eval_case(ctx, case)
         ctx.case(repr(case), bool(nt))
         if i < 2:
